@@ -5,6 +5,7 @@ import (
 	"fmt"
 	"path/filepath"
 	"runtime"
+	"strings"
 	"sync"
 	"sync/atomic"
 	"time"
@@ -154,9 +155,10 @@ func runOverlap(root, id string, c Case) (resA, resB result, bRan bool) {
 			fillResult(b, o.b, &resB)
 		}
 		bRan = o.bRan
-	case <-time.After(safetyLimit):
+	case <-time.After(30 * time.Second):
+		// e.g. an implementation that serialises plugin calls cannot run B inside A's log call: nothing to judge
 		killMarked(marker)
-		resA.Setup = "overlapping pair did not return within the safety limit"
+		resA.Setup = "recorded:overlap/pair-did-not-complete"
 	}
 	return
 }
@@ -164,6 +166,10 @@ func runOverlap(root, id string, c Case) (resA, resB result, bRan bool) {
 // recordOverlap judges both calls of a pair with the single-call oracle.
 func (d *driver) recordOverlap(c Case, resA, resB result, bRan bool, replaying bool) {
 	d.r.Eval(1)
+	if strings.HasPrefix(resA.Setup, "recorded:") {
+		d.r.Outcome(fmt.Sprintf("%s|hook=%d", resA.Setup, c.Hook))
+		return
+	}
 	if resA.Setup != "" {
 		d.r.Infra("%s (%s)", resA.Setup, c.key())
 		return
@@ -175,6 +181,9 @@ func (d *driver) recordOverlap(c Case, resA, resB result, bRan bool, replaying b
 		if v.Infra != "" {
 			d.r.Infra("%s", v.Infra)
 			return "INFRA"
+		}
+		for _, k := range v.Recorded {
+			d.r.Outcome("recorded:overlap/" + k)
 		}
 		for _, x := range v.Viols {
 			d.r.Violation("overlap/"+x.Key, fmt.Sprintf("call %s of an overlapping pair (B inside A's log call %d; 4 = after A): %s || pair %s", who, c.Hook, x.What, c.key()), c)
@@ -271,6 +280,9 @@ func (d *driver) runConcurrent(g, rounds, procs int) concStats {
 					mism.Add(1)
 				}
 				rc := cs[i].c
+				for _, k := range v.Recorded {
+					d.r.Outcome("recorded:concurrent/" + k)
+				}
 				for _, x := range v.Viols {
 					d.r.Violation("concurrent/"+x.Key, fmt.Sprintf("one of %d concurrent callers (GOMAXPROCS %d): %s", g, procs, x.What), rc)
 				}
